@@ -1,8 +1,10 @@
 """C07 - the smodels reader accepts exactly well-formed input and never alters a number.
 
-Case: N opts len bytes...   (N = BUF_SIZE variant, opts bit0 = claspExt, bit3 = filter; bits 1,2 (cEdge/cHeuristic) are C08's;
+Case: N opts len bytes... [mv]   (N = BUF_SIZE variant, opts bit0 = claspExt, bit3 = filter; bits 1,2 (cEdge/cHeuristic) are C08's;
                              bit4 = caller: 0 readSmodels/readProgram = parse(Complete), 1 the step-wise API accept(); parse(Incremental);
                              while (more()) parse(Incremental); - same observation for a correct reader, the model ignores the bit)
+      mv (optional, behind the text) = the reader's atom limit: 0 / absent = ProgramReader::setMaxVar is not called (varMax_ = 2^31-1),
+      k in 1..2^31-1 = reader.setMaxVar(k) before the text is read, -1 = setMaxVar(0)
 Observation: encoded calls in delivery order, then  status line nerr   (see harness/h_c07.cpp)
 
 The oracle is an independent reference reader written from the format definition (lparse manual + clasp
@@ -41,16 +43,34 @@ def decode(c):
     return n, ob, c[3:3 + ln]
 
 
-def mk(n, ob, data):
+def max_var_field(c):
+    """the raw trailer behind the text (0 = setMaxVar not called)"""
+    ln = c[2]
+    return c[3 + ln] if len(c) > 3 + ln else 0
+
+
+def max_var(c):
+    """the atom limit the reader applies with its member matchAtom (varMax_); None = outside the modelled domain"""
+    mv = max_var_field(c)
+    if mv == 0:
+        return INT_MAX
+    if mv == -1:
+        return 0
+    return mv if 1 <= mv <= INT_MAX else None
+
+
+def mk(n, ob, data, mv=0):
     data = list(data)
-    return [n, ob, len(data)] + data
+    return [n, ob, len(data)] + data + ([mv] if mv else [])
 
 
 def describe(c):
     n, ob, data = decode(c)
     rd = RU.reader(c, 'smodels', bool(ob & 1))
     caller = 'step-wise(accept; parse(Incremental); while more(): parse(Incremental))' if ob & 16 else 'readSmodels(parse(Complete))'
-    return 'N=%d claspExt=%d filter=%d caller=%s reader=%s text=%r' % (n, ob & 1, (ob >> 3) & 1, caller, rd, bytes(x & 255 for x in data).decode('latin-1'))
+    mv = max_var_field(c)
+    lim = 'default(setMaxVar not called)' if mv == 0 else 'setMaxVar(%d)' % (0 if mv == -1 else mv)
+    return 'N=%d claspExt=%d filter=%d maxVar=%s caller=%s reader=%s text=%r' % (n, ob & 1, (ob >> 3) & 1, lim, caller, rd, bytes(x & 255 for x in data).decode('latin-1'))
 
 
 # ---------------------------------------------------------------------------------------------------
@@ -62,8 +82,13 @@ class Reject(Exception):
 
 
 class Ref:
-    def __init__(self, data, ext):
+    def __init__(self, data, ext, max_var=None):
+        """max_var: the limit configured with ProgramReader::setMaxVar (None = never called = 2^31-1). It bounds the atoms of RULES
+        (heads, bodies of every rule type, the atom of 91 / 92) and - because the reader reads it with the same call - the head count of
+        choice / disjunctive rules; symbol-table, compute and E-section atoms are bounded by atomMax = 2^31-1 whatever the limit
+        (src/smodels.cpp reads them with matchPos(atomMax, ..))."""
         self.d, self.i, self.line, self.ext = list(data), 0, 1, ext
+        self.vmax = INT_MAX if max_var is None else max_var
         self.calls = []
 
     def peek(self):
@@ -108,7 +133,13 @@ class Ref:
         return v
 
     def atom(self, what='atom'):
-        return self.ranged(what, 1, INT_MAX)
+        """an atom of a rule: 1 .. maxVar"""
+        v = self.num(what)
+        if not (1 <= v <= INT_MAX):
+            raise Reject('range:' + what, self.line)
+        if v > self.vmax:
+            raise Reject('maxvar:' + what, self.line)
+        return v
 
     def body_counts(self, order):
         """reads the count / bound fields of a body in the given order; range and neg<=len are checked after all were read"""
@@ -142,7 +173,7 @@ class Ref:
             if rt == 0:
                 return
             if rt in (3, 8):
-                n = self.ranged('head-size', 1, INT_MAX)
+                n = self.atom('head-size')   # matchAtom("positive head size expected"): 1 .. maxVar like an atom
                 if n > len(self.d):
                     self.fail_count()
                 hs = [self.atom('head-atom') for _ in range(n)]
@@ -245,8 +276,8 @@ class Ref:
                 raise Reject('extra:input-after-program', self.line)
 
 
-def reference(data, ext):
-    r = Ref(data, ext)
+def reference(data, ext, max_var=None):
+    r = Ref(data, ext, max_var)
     try:
         r.program()
         return True, r.calls, None
@@ -268,8 +299,10 @@ def norm_call(c):
     return tuple(list(x) if isinstance(x, (list, tuple)) and not isinstance(x, bytes) else x for x in c)
 
 
-def scan_delivered(cs):
-    """Range sanity of what was delivered, whether or not the text was accepted in the end."""
+def scan_delivered(cs, vmax=INT_MAX):
+    """Range sanity of what was delivered, whether or not the text was accepted in the end. vmax = the configured maxVar: it bounds every
+    atom of a rule with a head, of a weight rule and of a minimize statement (a rule with an EMPTY head is a compute-statement atom, an
+    external may come from the E section: those are bounded by 2^31-1 only)."""
     sig = []
     for c in cs:
         t = c[0]
@@ -292,6 +325,8 @@ def scan_delivered(cs):
             sig.append('delivered-weight-out-of-range')
         if any(not (1 <= a <= INT_MAX) for a in atoms) or any(l == 0 or abs(l) > INT_MAX for l in lits):
             sig.append('delivered-atom-out-of-range')
+        elif ((t == 4 and atoms) or t in (5, 6)) and (any(a > vmax for a in atoms) or any(abs(l) > vmax for l in lits)):
+            sig.append('delivered-rule-atom-above-max-var')
     return sig
 
 
@@ -305,17 +340,23 @@ def oracle(c, obs):
     if sp is None or sp[1]:
         return ['harness:undecodable-observation']
     cs, _, (status, line, nerr) = sp
-    sig = scan_delivered(cs)
+    vmax = max_var(c)
+    if vmax is None:
+        return ['harness:max-var-outside-domain-not-answered-with--3']
+    sig = scan_delivered(cs, vmax)
     if status not in (0, 1):
         sig.append('exception-escaped-error-handler')
         return sig
-    ok, rcalls, rej = reference(data, bool(ob & 1))
+    ok, rcalls, rej = reference(data, bool(ob & 1), vmax)
     got = [norm_call(x) for x in cs]
     want = [norm_call(x) for x in rcalls]
     if status == 1:
         if nerr != 0:
             sig.append('error-handler-called-on-accepted-input')
-        if not ok:
+        if not ok and rej.reason.startswith('maxvar:'):
+            # every number fits 1..2^31-1, but an atom of a rule exceeds the limit set with setMaxVar
+            sig.append('accepted-atom-above-max-var:' + rej.reason[7:])
+        elif not ok:
             sig.append('accepted-malformed:' + rej.reason)
         elif got != want:
             sig.append('delivered-differs-from-denoted')
@@ -604,15 +645,58 @@ EXTRA_GARBAGE = [b'x', b'0', b'1', b'9', b'5 ', b'B+', b'B-\n', b'E', b'-', b'+'
                  b'1 1 0 0', b'90 0\n', b'a b c', b'4294967296', b'-1\n']
 
 
+# the reader's atom limit (setMaxVar): one text per position that is read with the member matchAtom (bounded by maxVar) and per position
+# that is read with matchPos(atomMax) (NOT bounded by maxVar); every text is run with maxVar = a-1, a, a+1 for its marked atom a (and a few others)
+TAILS = b'0\n0\nB+\n0\nB-\n0\n1\n'
+MAXVAR_FIXED = [
+    (b'1 2 1 0 5\n' + TAILS, 0, 5, 'body-pos'), (b'1 2 1 1 5\n' + TAILS, 0, 5, 'body-neg'), (b'1 2 3 1 1 5 2\n' + TAILS, 0, 5, 'body-mid'),
+    (b'1 5 0 0\n' + TAILS, 0, 5, 'head'), (b'3 2 1 5 0 0\n' + TAILS, 0, 5, 'choice-head'), (b'8 2 5 1 0 0\n' + TAILS, 0, 5, 'disj-head'),
+    (b'3 1 2 1 0 5\n' + TAILS, 0, 5, 'choice-body'), (b'8 2 1 2 2 1 5 3\n' + TAILS, 0, 5, 'disj-body'),
+    (b'3 5 1 1 1 1 1 0 0\n' + TAILS, 0, 5, 'head-count'), (b'8 3 1 1 1 0 0\n' + TAILS, 0, 3, 'head-count'),
+    (b'2 1 2 1 1 5 2\n' + TAILS, 0, 5, 'card-body'), (b'5 1 1 2 0 2 5 1 1\n' + TAILS, 0, 5, 'weight-body'), (b'6 0 1 1 5 3\n' + TAILS, 0, 5, 'min-body'),
+    (b'2 5 0 0 0\n' + TAILS, 0, 5, 'card-head'), (b'5 5 0 0 0\n' + TAILS, 0, 5, 'weight-head'),
+    (b'91 5 1\n' + TAILS, 1, 5, 'assign-ext'), (b'92 5\n' + TAILS, 1, 5, 'release-ext'), (b'90 0\n1 1 1 0 5\n' + TAILS + b'1 1 1 1 5\n' + TAILS, 1, 5, 'second-step'),
+    (b'0\n5 a\n0\nB+\n0\nB-\n0\n1\n', 0, 5, 'symbol-atom-not-limited'), (b'0\n0\nB+\n5\n0\nB-\n0\n1\n', 0, 5, 'compute-atom-not-limited'),
+    (b'0\n0\nB+\n0\nB-\n5\n0\n1\n', 0, 5, 'compute-atom-not-limited'), (b'0\n0\nB+\n0\nB-\n0\nE\n5\n0\n1\n', 0, 5, 'external-section-atom-not-limited'),
+    (b'1 1 2 1 2147483647 2147483646\n' + TAILS, 0, 2147483647, 'body-top'), (b'1 2147483646 1 0 2147483646\n' + TAILS, 0, 2147483646, 'body-top'),
+    (b'1 1 1 0 4294967301\n' + TAILS, 0, 5, 'body-wrapped-32'), (b'1 1 1 0 18446744073709551621\n' + TAILS, 0, 5, 'body-wrapped-64'),
+]
+
+
+def pick_max_var(rnd, items):
+    """a setMaxVar argument aimed at the atoms the text uses: just below / at / just above one of its numbers, a small value, the top of the range"""
+    vals = sorted({v for it in items if it[0] == 'line' for _, v in it[1] if 1 <= v <= INT_MAX} | {it[1] for it in items if it[0] == 'sym' and 1 <= it[1] <= INT_MAX})
+    r = rnd.random()
+    if vals and r < 0.55:
+        a = vals[-1] if rnd.random() < 0.6 else rnd.choice(vals)
+        mv = a + rnd.choice([-1, -1, 0, 0, 1])
+    elif r < 0.8:
+        mv = rnd.randint(1, 8)
+    elif r < 0.9:
+        mv = rnd.choice([INT_MAX - 1, INT_MAX, INT_MAX - 1, 65536, 4096])
+    else:
+        mv = -1   # setMaxVar(0)
+    if mv == 0:
+        mv = -1
+    return mv if -1 <= mv <= INT_MAX else INT_MAX
+
+
 def gen(seed, tier):
     rnd = random.Random(seed * 1000003 + 7)
-    total = {'quick': 3000, 'thorough': 120000, 'search': 6000}.get(tier, 3000)
+    total = {'quick': 3400, 'thorough': 130000, 'search': 6000}.get(tier, 3400)
     out = []
 
-    def add(data, ob, kind, n=None):
+    def add(data, ob, kind, n=None, mv=0):
         if 0 in data:
             data = [b for b in data if b != 0]
-        out.append((mk(n or rnd.choice(SIZES), ob, data), {'kind': kind + ('-stepwise' if ob & 16 else '')}))
+        out.append((mk(n or rnd.choice(SIZES), ob, data, mv), {'kind': kind + ('-stepwise' if ob & 16 else '') + ('-maxvar' if mv else '')}))
+    for t, ob, a, kind in MAXVAR_FIXED:
+        # field values: 0 = setMaxVar not called, -1 = setMaxVar(0)
+        for mvf in sorted({(a - 1) or -1, a, min(a + 1, INT_MAX), 1, INT_MAX - 1, INT_MAX, -1, 0}):
+            add(list(t), ob, 'fixed-maxvar-' + kind, SIZES[(a + mvf) % 3], mvf)
+            if mvf in ((a - 1) or -1, a):
+                add(list(t), ob | 16, 'fixed-maxvar-' + kind, SIZES[(a + mvf + 1) % 3], mvf)
+                add(list(t.replace(b'\n', b'\r\n')), ob | 8, 'fixed-maxvar-' + kind + '-crlf', SIZES[(a + mvf + 2) % 3], mvf)
     for t, ob, kind in FIXED:
         for n in SIZES:
             add(list(t), ob, 'fixed-' + kind, n)
@@ -651,13 +735,17 @@ def gen(seed, tier):
         items = r_items(rnd, gen_ext)
         style = rnd.choice(['lf', 'lf', 'crlf', 'wild', 'general'])
         r = rnd.random()
+        # the reader's atom limit: ~40 % of the cases configure one (setMaxVar) around the atoms of the text
+        mv = pick_max_var(rnd, items) if rnd.random() < 0.4 else 0
         if r < 0.35:
-            add(render(items, rnd, style), ob, 'valid-' + style)
+            add(render(items, rnd, style), ob, 'valid-' + style, mv=mv)
         elif r < 0.65:
             pos = numeric_positions(items)
             p = rnd.choice(pos)
             v = rnd.choice(BIG) if rnd.random() < 0.8 else rnd.choice([2 ** 64 + rnd.randint(0, 9), rnd.randint(2 ** 31, 2 ** 33), 7, 0, 4, 9, 90, 93])
-            add(render(set_num(items, p, v), rnd, style), ob, 'fault-number-' + style)
+            if mv > 0 and rnd.random() < 0.5:
+                v = mv + rnd.choice([1, 1, 2, 2 ** 32, 2 ** 64])   # a number just above the limit / congruent to an allowed one
+            add(render(set_num(items, p, v), rnd, style), ob, 'fault-number-' + style, mv=mv)
         elif r < 0.72:
             # neg > len : find a rule line and bump its neg field
             cand = [i for i, it in enumerate(items) if it[0] == 'line' and it[1][0][1] in KNOWN_TYPES and len(it[1]) > 3]
@@ -670,7 +758,7 @@ def gen(seed, tier):
                     l[k] = l[k - 1] + rnd.choice([1, 1, 2, 5, UINT_MAX])
                     items = list(items)
                     items[i] = ('line', [('n', v) for v in l])
-            add(render(items, rnd, style), ob, 'fault-neg-gt-len')
+            add(render(items, rnd, style), ob, 'fault-neg-gt-len', mv=mv)
         elif r < 0.80:
             # structural fault: drop / duplicate / swap an item
             items = list(items)
@@ -683,10 +771,10 @@ def gen(seed, tier):
             else:
                 j = rnd.randrange(len(items))
                 items[i], items[j] = items[j], items[i]
-            add(render(items, rnd, style), ob, 'fault-structure')
+            add(render(items, rnd, style), ob, 'fault-structure', mv=mv)
         elif r < 0.88:
             d = render(items, rnd, style)
-            add(d[:rnd.randrange(len(d) + 1)], ob, 'fault-truncated')
+            add(d[:rnd.randrange(len(d) + 1)], ob, 'fault-truncated', mv=mv)
         elif r < 0.94:
             d = render(items, rnd, style)
             for _ in range(rnd.choice([1, 1, 2, 3])):
@@ -699,7 +787,7 @@ def gen(seed, tier):
                         del d[i]
                     else:
                         d.insert(i, rnd.choice([32, 10, 48, 57, 45, 43, 66, 13]))
-            add(d, ob, 'fault-byte')
+            add(d, ob, 'fault-byte', mv=mv)
         else:
             toks = [rnd.choice(['0', '1', '2', '3', '5', '6', '8', '90', '91', '92', 'B+', 'B-', 'E', 'a', '4294967295', '2147483648', '-1', '\n', '\r\n', ' '])
                     for _ in range(rnd.randint(1, 30))]
@@ -710,6 +798,12 @@ def gen(seed, tier):
 def shrink(case, fails):
     n, ob, data = decode(case)
     data = list(data)
+    mvf = max_var_field(case)
+
+    def mk(n, ob, data):   # keeps the reader's atom limit
+        return globals()['mk'](n, ob, data, mvf)
+    if mvf and fails(globals()['mk'](n, ob, data, 0)):
+        mvf = 0            # the limit is not needed for the failure
     changed = True
     while changed:
         changed = False
@@ -745,7 +839,7 @@ def mutate(case, rnd):
         if d:
             i = rnd.randrange(len(d))
             d[i:i + 1] = list(str(rnd.choice(BIG)).encode()) if rnd.random() < 0.5 else [rnd.choice([48, 49, 57, 32, 10])]
-        res.append(mk(n, ob ^ rnd.choice([0, 0, 1]), d))
+        res.append(mk(n, ob ^ rnd.choice([0, 0, 1]), d, rnd.choice([max_var_field(case), 0, rnd.randint(1, 8), -1])))
     return res
 
 
